@@ -259,6 +259,7 @@ func checkC10(r *core.Run) {
 	c10LookupSkip(r, p, "R-C10-layout")
 	c10Special(r, p)
 	c10Snapshot(r, p)
+	sentBufferNotReused(r, p, "R-C10-snapshot", []string{"lib/utxo"}, 2)
 }
 
 func c10Layout(r *core.Run, p *core.Program) {
